@@ -1,5 +1,7 @@
 import MidnightZK.Model.Common
 import MidnightZK.Model.C05.Bounds
+import MidnightZK.Model.C05.Gate
+import MidnightZK.Model.C05.Chip
 import MidnightZK.Gen.C05Params
 /-! Line-protocol handler of property C05. -/
 namespace MidnightZK.C05.Driver
@@ -25,7 +27,188 @@ def fmtAux (r : Except String AuxBounds) : String :=
   | .ok b => s!"{b.kMin} {b.uMax} {fmtPairs b.vs}"
   | .error e => e
 
+
+/-! ## Field-chip programs -/
+
+def getFe (st : PSt) (s : String) : Option FVar :=
+  match s.toNat? with
+  | some i => match st.vals[i]? with
+    | some (.fe x) => some x
+    | _ => none
+  | none => none
+
+def getBit (st : PSt) (s : String) : Option Bool :=
+  match s.toNat? with
+  | some i => match st.vals[i]? with
+    | some (.bit b) => some b
+    | _ => none
+  | none => none
+
+def optNat? (s : String) : Option (Option Nat) :=
+  if s = "-" then some none else s.toNat?.map some
+
+/-- Result of one op: new value and whether the honest witness still satisfies everything;
+`none` = malformed request. -/
+def stepOp (c : ChipCfg) (st : PSt) (name : String) (a : List String) :
+    Option (Except Stop (Val × Bool)) :=
+  let ok (v : Val) : Option (Except Stop (Val × Bool)) := some (.ok (v, true))
+  let lift (r : Except Stop FVar) : Option (Except Stop (Val × Bool)) :=
+    some (r.map (fun x => (Val.fe x, true)))
+  let kc (s : String) : Option Int := (parseInt? s).map (· % c.m)
+  match name, a with
+  | "in", [v] => do let v ← kc v; ok (.fe (c.assign v))
+  | "fix", [v] => do let v ← kc v; ok (.fe (c.assignFixed v))
+  | "inpi", [v] => do let v ← kc v; ok (.fe (c.assign v))
+  | "inbit", [b] => ok (.bit (b = "1"))
+  | "inbits", [b] =>
+    ok (.bits ((b.toList.filter (fun ch => ch = '0' ∨ ch = '1')).map (· = '1')))
+  | "inbytes", [b] => do let l ← parseNatList? b; ok (.bytes l)
+  | "add", [x, y] => do let x ← getFe st x; let y ← getFe st y; lift (c.add x y)
+  | "sub", [x, y] => do let x ← getFe st x; let y ← getFe st y; lift (c.sub x y)
+  | "neg", [x] => do let x ← getFe st x; lift (c.neg x)
+  | "mul", [x, y] => do let x ← getFe st x; let y ← getFe st y; lift (c.mul x y none)
+  | "mulk", [x, y, k] => do
+    let x ← getFe st x; let y ← getFe st y; let k ← kc k; lift (c.mul x y (some k))
+  | "div", [x, y] => do
+    let x ← getFe st x; let y ← getFe st y
+    if y.fixedOf = some 1 then ok (.fe x) else
+    some (do
+      let y' ← c.normalize y
+      let z ← c.isZero y'
+      -- assert_non_zero fails for y = 0; assign_mul then returns Err
+      let r ← c.assignMul x y' true
+      pure (.fe r, !z))
+  | "inv", [x] => do
+    let x ← getFe st x
+    if x.fixedOf = some 1 then ok (.fe (c.assignFixed 1)) else lift (c.assignMul (c.assignFixed 1) x true)
+  | "inv0", [x] => do
+    let x ← getFe st x
+    some (do
+      let z ← c.isZero x
+      let one := c.assignFixed 1
+      let invertible := ChipCfg.select z one x
+      let inverse ← c.assignMul one invertible true
+      pure (.fe (ChipCfg.select z (c.assignFixed 0) inverse), true))
+  | "addc", [x, k] => do let x ← getFe st x; let k ← kc k; lift (c.addConstant x k)
+  | "mulc", [x, k] => do let x ← getFe st x; let k ← kc k; lift (c.mulByConstant x k)
+  | "lc", [k, terms] => do
+    let k ← kc k
+    let ts ← if terms = "-" then some [] else (terms.splitOn ",").mapM (fun t =>
+      match t.splitOn ":" with
+      | [kk, v] => do let kk ← kc kk; let x ← getFe st v; pure (kk, x)
+      | _ => none)
+    lift (c.linearCombination ts k)
+  | "iszero", [x] => do let x ← getFe st x; some ((c.isZero x).map (fun b => (.bit b, true)))
+  | "iseq", [x, y] => do
+    let x ← getFe st x; let y ← getFe st y
+    some (do let d ← c.sub x y; let b ← c.isZero d; pure (.bit b, true))
+  | "isneq", [x, y] => do
+    let x ← getFe st x; let y ← getFe st y
+    some (do let d ← c.sub x y; let b ← c.isZero d; pure (.bit (!b), true))
+  | "iseqc", [x, k] => do
+    let x ← getFe st x; let k ← kc k
+    some (do let d ← c.addConstant x (-k); let b ← c.isZero d; pure (.bit b, true))
+  | "asserteq", [x, y] => do
+    let x ← getFe st x; let y ← getFe st y
+    some (do let x ← c.normalize x; let y ← c.normalize y; pure (.unit, x.limbs == y.limbs))
+  | "assertneq", [x, y] => do
+    let x ← getFe st x; let y ← getFe st y
+    some (do let d ← c.sub x y; let b ← c.isZero d; pure (.unit, !b))
+  | "asserteqc", [x, k] => do
+    let x ← getFe st x; let k ← kc k
+    some (do let x ← c.normalize x; pure (.unit, x.limbs == c.limbsOf k))
+  | "assertneqc", [x, k] => do
+    let x ← getFe st x; let k ← kc k
+    some (do let d ← c.addConstant x (-k); let b ← c.isZero d; pure (.unit, !b))
+  | "assertnz", [x] => do
+    let x ← getFe st x
+    some (do let b ← c.isZero x; pure (.unit, !b))
+  | "select", [b, x, y] => do
+    let b ← getBit st b; let x ← getFe st x; let y ← getFe st y
+    ok (.fe (ChipCfg.select b x y))
+  | "bits", [x, n, canon] => do
+    let x ← getFe st x; let n ← optNat? n
+    some ((c.toLeBits x n (canon = "1")).map (fun r => (.bits r.1, r.2)))
+  | "bytes", [x, n] => do
+    let x ← getFe st x; let n ← optNat? n
+    let nb := n.getD ((c.numBits + 7) / 8)
+    some ((c.toLeBits x (some (nb * 8)) true).map (fun r =>
+      (.bytes ((ChipCfg.chunksOf (r.1.length + 1) 8 r.1).map ChipCfg.bitsToByte), r.2)))
+  | "chunks", [x, w, n] => do
+    let x ← getFe st x; let w ← w.toNat?; let n ← optNat? n
+    some ((c.toLeChunks x w n).map (fun r => (.nats r.1, r.2)))
+  | "frombits", [v] => do
+    let i ← v.toNat?
+    match st.vals[i]? with
+    | some (.bits bs) =>
+      let chunks := ChipCfg.chunksOf (bs.length + 1) c.L bs
+      let terms := chunks.zipIdx.map (fun (ch, j) =>
+        (((2 : Int) ^ (c.L * j)) % c.m, c.fromLimb (ChipCfg.bitsValue ch)))
+      some (do let x ← c.linearCombination terms 0; let x ← c.normalize x; pure (.fe x, true))
+    | _ => none
+  | "frombytes", [v] => do
+    let i ← v.toNat?
+    match st.vals[i]? with
+    | some (.bytes bs) =>
+      let per := c.L / 8
+      let chunks := ChipCfg.chunksOf (bs.length + 1) per bs
+      let val (ch : List Nat) : Int := (ch.zipIdx.map (fun (b, k) => (b : Int) * (256 : Int) ^ k)).foldl (· + ·) 0
+      let terms := chunks.zipIdx.map (fun (ch, j) =>
+        (((2 : Int) ^ (8 * per * j)) % c.m, c.fromLimb (val ch)))
+      some (do let x ← c.linearCombination terms 0; let x ← c.normalize x; pure (.fe x, true))
+    | _ => none
+  | "bit2f", [b] => do let b ← getBit st b; ok (.fe (c.fromLimb (if b then 1 else 0)))
+  | "pi", [x] => do
+    let x ← getFe st x
+    some (do let _ ← c.normalize x; pure (.unit, true))
+  | _, _ => none
+
+/-- Run a program; the answer lists every op's output, then the verdict of the honest witness. -/
+def runProg (c : ChipCfg) (ops : List (List String)) : String := Id.run do
+  let mut st : PSt := {}
+  let mut stop : Option String := none
+  for o in ops do
+    match o with
+    | name :: args =>
+      match stepOp c st name args with
+      | none => return "bad-op"
+      | some (.error .err) => stop := some "E"; break
+      | some (.error .panic) => stop := some "P"; break
+      | some (.ok (v, ok)) =>
+        st := { st with vals := st.vals.push v, sat := st.sat && ok, outs := st.outs.push (fmtVal v) }
+    | [] => return "bad-op"
+  let outs := st.outs.toList ++ (match stop with | some s => [s] | none => [])
+  let verdict := match stop with
+    | some _ => "stopped"
+    | none => if st.sat then "sat" else "unsat"
+  return " | ".intercalate outs ++ " => " ++ verdict
+
+def answerProg (line : String) : String :=
+  match (line.trimAscii.toString.splitOn " ; ") with
+  | hd :: rest =>
+    match words hd with
+    | ["fp", name] =>
+      match (findSet name).bind ChipCfg.ofParams with
+      | some c => runProg c (rest.map words)
+      | none => "bad-op"
+    | _ => "bad-op"
+  | [] => "bad-op"
+
+
+
+/-- Values modulo `p` of the gate's identities in the order of `configure`
+(auxiliary-modulus identities, then the native identity). -/
+def idValues (p m kMin u : Int) (exprOf : Int → Int) (exprNative : Int) :
+    List Int → List (Int × Int) → List Int → List Int
+  | mj :: ms, vb :: vsb, vj :: vjs =>
+    (modId m kMin mj vb.1 (exprOf mj) u vj % p) :: idValues p m kMin u exprOf exprNative ms vsb vjs
+  | _, _, _ => [nativeId m kMin exprNative u % p]
+
+def fmtRow (u : Int) (vjs : List Int) (ok : Bool) : String :=
+  s!"{u} {fmtInts vjs} {if ok then "ok" else "BAD"}"
+
 def answer (line : String) : String :=
+  if line.startsWith "fp " then answerProg line else
   match words line with
   | ["auxb", p, m, moduli, emin, emax, mjb] =>
     match parseInt? p, parseInt? m, parseIntList? moduli, parseInt? emin, parseInt? emax, parsePairs? mjb with
@@ -33,6 +216,44 @@ def answer (line : String) : String :=
       if p ≤ 0 ∨ m ≤ 0 ∨ moduli.any (· ≤ 0) then "bad-op" else
       fmtAux (identityAuxBounds p m moduli (emin, emax) mjb)
     | _, _, _, _, _, _ => "bad-op"
+  | ["geval", name, "mul", xs, ys, zs, u, vs] =>
+    match findSet name, parseIntList? xs, parseIntList? ys, parseIntList? zs, parseInt? u, parseIntList? vs with
+    | some P, some xs, some ys, some zs, some u, some vs =>
+      match P.mulBounds with
+      | .ok b => fmtInts (idValues P.p P.m b.kMin u (P.mulExprMod xs ys zs)
+          (mulExpr P.basePowers P.doubleBasePowers xs ys zs) P.moduli b.vs vs)
+      | .error e => e
+    | _, _, _, _, _, _ => "bad-op"
+  | ["geval", name, "norm", xs, zs, u, vs] =>
+    match findSet name, parseIntList? xs, parseIntList? zs, parseInt? u, parseIntList? vs with
+    | some P, some xs, some zs, some u, some vs =>
+      match P.normBounds with
+      | .ok b => fmtInts (idValues P.p P.m b.kMin u (P.normExprMod xs zs)
+          (normExpr P.basePowers P.maxLimbBound xs zs P.normSumShifts) P.moduli b.vs vs)
+      | .error e => e
+    | _, _, _, _, _ => "bad-op"
+  | ["mulrow", name, xs, ys, zs] =>
+    match findSet name, parseIntList? xs, parseIntList? ys, parseIntList? zs with
+    | some P, some xs, some ys, some zs =>
+      match P.mulBounds with
+      | .ok b =>
+        let w := P.mulWitness b xs ys zs
+        let ok := P.mulGateHolds b xs ys zs w.1 w.2 && decide (0 ≤ w.1) && decide (w.1 < b.uMax)
+          && vjsInRange b.vs w.2 && decide (w.2.length = b.vs.length)
+        fmtRow w.1 w.2 ok
+      | .error e => e
+    | _, _, _, _ => "bad-op"
+  | ["normrow", name, xs] =>
+    match findSet name, parseIntList? xs with
+    | some P, some xs =>
+      match P.normBounds with
+      | .ok b =>
+        let w := P.normWitness b xs
+        let ok := P.normGateHolds b xs w.1 w.2.1 w.2.2 && decide (0 ≤ w.2.1) && decide (w.2.1 < b.uMax)
+          && vjsInRange b.vs w.2.2 && P.wellFormedOk w.1 && decide (w.2.2.length = b.vs.length)
+        s!"{fmtInts w.1} {fmtRow w.2.1 w.2.2 ok}"
+      | .error e => e
+    | _, _ => "bad-op"
   | ["params", name] =>
     match findSet name with
     | some P => s!"{P.p} {P.m} {P.log2Base} {P.nbLimbs} {fmtInts P.moduli} {P.rcLimbSize} {P.maxLimbBound}"
